@@ -8,7 +8,7 @@ wt = "/tmp/seed/%s" % pid
 seed = os.path.join(wt, "SEED")
 env = dict(os.environ, GOFLAGS="-mod=mod", GOPROXY="off", GOSUMDB="off", GOTOOLCHAIN="local")
 def sh(cmd, cwd=wt, timeout=900):
-    p = subprocess.run(cmd, shell=True, cwd=cwd, env=env, stdout=subprocess.PIPE, stderr=subprocess.STDOUT, text=True, timeout=timeout)
+    p = subprocess.run(cmd, shell=True, cwd=cwd, env=env, stdout=subprocess.PIPE, stderr=subprocess.STDOUT, text=True, errors='replace', timeout=timeout)
     return p.returncode, p.stdout
 patch = open(os.path.join(seed, "patch.diff")).read()
 res = {"property": pid, "date": time.strftime("%Y-%m-%d")}
